@@ -80,6 +80,11 @@ def _all(cfg):
     T(["C17"], "date_to_dt_agg", lambda p, t: t >> p.summarize(y=t.d.cast(p.Datetime()).max(), z=t.t.cast(p.Date()).min()))
     T(["C17"], "date_to_dt_arrange", lambda p, t: t >> p.arrange(t.d.cast(p.Datetime()).nulls_last(), t.a.nulls_last()))
     T(["C17"], "null_to_date", lambda p, t: t >> p.mutate(y=p.lit(None).cast(p.Date()), z=t.d.cast(p.Datetime()).is_null()))
+    # constant sources (literal / column made from a python scalar): same table as for columns
+    T(["C17", "C19"], "lit_dt_to_date", lambda p, t: t >> p.mutate(y=p.lit(T0).cast(p.Date()), z=p.lit(D0).cast(p.Datetime())))
+    T(["C17"], "lit_to_str", lambda p, t: t >> p.mutate(y=p.lit(T0).cast(p.String()), z=p.lit(D1).cast(p.String()), w=p.lit(T2).cast(p.Date()).cast(p.String())))
+    T(["C17"], "scalar_col_to_date", lambda p, t: t >> p.mutate(ts=T2, dd=D1) >> p.mutate(y=p.C.ts.cast(p.Date()), z=p.C.dd.cast(p.Datetime()) <= t.t))
+    T(["C17"], "lit_dt_to_date_cmp", lambda p, t: t >> p.filter(p.lit(T1).cast(p.Date()) == t.d))
     T(["C17", "C01"], "str_lit_to_date", lambda p, t: t >> p.mutate(y=p.lit("2020-01-05").str.to_date(), z=p.lit("2000-02-29").str.to_date() == t.d))
     T(["C17", "C19"], "str_lit_to_datetime", lambda p, t: t >> p.mutate(z=p.lit("1999-12-31 23:59:59").str.to_datetime()))
     # outside every interpreter: decided by a concrete differential only (e1.cross_concrete)
